@@ -65,6 +65,13 @@ Theorem C38_bodyless_statuses_refuse_writes : forall e ops fr res s,
 Proof. exact bodyless_refused. Qed.
 Print Assumptions C38_bodyless_statuses_refuse_writes.
 
+(* bufio.Writer.Write is modelled with fuel (its loop); the fuel never runs out: every Write result is 0 (accepted) or
+   1 (refused), never the fuel marker 2 -- for every non-negative buffer size. *)
+Theorem C38_write_results_01 : forall e ops fr res s,
+  0 <= e_bsz e -> run_handler e ops = (fr, res, s) -> forallb (fun r => (r =? 0) || (r =? 1)) res = true.
+Proof. exact write_results_01. Qed.
+Print Assumptions C38_write_results_01.
+
 (* THE central statement.  wf_C38 i (executable): the input decodes ([method bufsz hop script], method 0/1, bufsz > 0),
    the hop list contains the canonical spelling of the five connection-specific names (true of HopHeaders), every
    WriteHeader code is in 100..999.  On every such input the model's own observation run_C38 i satisfies the executable
@@ -75,6 +82,27 @@ Print Assumptions C38_bodyless_statuses_refuse_writes.
 Theorem C38_central : forall i, wf_C38 i = true -> kf_C38 i = 0 -> prop_C38 i (run_C38 i) = true.
 Proof. exact prop_C38_central. Qed.
 Print Assumptions C38_central.
+
+(* The same for every iteration order n that Go's map range may take over the "Trailer:"-prefixed keys of the handler
+   header in promoteUndeclaredTrailers (run_perm n; run_C38 = run_perm 0): the property does not depend on it ... *)
+Theorem C38_central_all_orders : forall n i,
+  wf_C38 i = true -> kf_C38 i = 0 -> prop_C38 i (run_perm n i) = true.
+Proof. exact prop_C38_central_perm. Qed.
+Print Assumptions C38_central_all_orders.
+
+(* ... and the correspondence predicate agree_C38 (membership: the implementation's observation must equal the model's
+   for one of the enumerated orders) accepts each of them. *)
+Theorem C38_agree_accepts_model : forall n i, In n perms -> agree_C38 i (run_perm n i) = true.
+Proof. exact agree_C38_perm. Qed.
+Print Assumptions C38_agree_accepts_model.
+
+(* The order is observable: with keys "Trailer:foo" = 1 and "Trailer:Foo" = 2 the trailer foo is sent as 2 or as 1. *)
+Example C38_trailer_key_collision :
+  let ops := [OWrite b_hi; OFlush; OSet (s_TrailerPrefix ++ [102;111;111]) [49]; OSet (s_TrailerPrefix ++ b_Foo) [50]] in
+  frames_of (with_perm 0 env_get) ops <> frames_of (with_perm 1 env_get) ops
+  /\ last (frames_of (with_perm 0 env_get) ops) (FD false []) = FH true [(to_lower b_Foo, [50])]
+  /\ last (frames_of (with_perm 1 env_get) ops) (FD false []) = FH true [(to_lower b_Foo, [49])].
+Proof. exact collision_witness. Qed.
 
 (* a corpus case (declared, unset trailer) satisfies wf_C38 *)
 Example C38_corpus_case_wf : wf_C38 corpus_case = true /\ prop_C38 corpus_case (run_C38 corpus_case) = true.
